@@ -1812,6 +1812,54 @@ def first_visit_item():
             "Definition gen_first_visit_shares_a_visited_lowering : bool := true.\n" % act(list(loop.body)))
 
 
+def group_item():
+    """task_types/stdlib/run_experiment_group.py: ONE loop over `experiments` whose body is, in this order: the instance test,
+    the duplicate-name test, remembering the name, the dependency list of the instance (the group's own list object, or a new
+    list [*task_deps, prev] exactly when the translated chain test holds), the run_experiment call with the instance's own
+    name / args / options / parallelizable and the group's run, the relative identifier ":" + name appended and remembered as
+    the previous one; TypeError mapped to ExperimentGroupInvalidExperimentInstance; then combine(name, deps=<the identifiers>)."""
+    f = _find_function("conductor/task_types/stdlib/run_experiment_group.py", "run_experiment_group")
+    body = [ast.unparse(x) for x in _body_without_docstring(f)]
+    want_head = ["task_deps = deps if deps is not None else []", "relative_experiment_identifiers = []", "prev_experiment_identifier: Optional[str] = None"]
+    if body[:3] != want_head or len(body) != 5:
+        raise Unsupported("run_experiment_group does not start with its three accumulators: %r" % [b.splitlines()[0] for b in body])
+    tr = _body_without_docstring(f)[3]
+    if not isinstance(tr, ast.Try) or tr.finalbody or tr.orelse or len(tr.handlers) != 1 or ast.unparse(tr.handlers[0].type) != "TypeError" \
+            or [ast.unparse(x) for x in tr.handlers[0].body] != ["raise ExperimentGroupInvalidExperimentInstance(task_name=name) from ex"]:
+        raise Unsupported("the loop is not wrapped in `try: ... except TypeError: raise ExperimentGroupInvalidExperimentInstance`")
+    tb = list(tr.body)
+    if len(tb) != 2 or ast.unparse(tb[0]) != "seen_experiment_names = set()" or not isinstance(tb[1], ast.For):
+        raise Unsupported("the try block is not `seen = set(); for experiment in experiments: ...`")
+    loop = tb[1]
+    if ast.unparse(loop.target) != "experiment" or ast.unparse(loop.iter) != "experiments" or loop.orelse:
+        raise Unsupported("the loop does not run once over `experiments`")
+    lb = list(loop.body)
+    got = [ast.unparse(x) for x in lb]
+    want = ["if not isinstance(experiment, ExperimentInstance):\n    raise ExperimentGroupInvalidExperimentInstance(task_name=name)",
+            "if experiment.name in seen_experiment_names:\n    raise ExperimentGroupDuplicateName(task_name=name, instance_name=experiment.name)",
+            "seen_experiment_names.add(experiment.name)",
+            "experiment_deps = task_deps",
+            None,   # the chain test
+            "run_experiment(name=experiment.name, run=run, parallelizable=experiment.parallelizable, args=experiment.args, options=experiment.options, deps=experiment_deps)",
+            "experiment_identifier = ':' + experiment.name",
+            "relative_experiment_identifiers.append(experiment_identifier)",
+            "prev_experiment_identifier = experiment_identifier"]
+    if len(got) != len(want):
+        raise Unsupported("the loop body has %d statements" % len(got))
+    for k, (g, w) in enumerate(zip(got, want)):
+        if w is not None and g != w:
+            raise Unsupported("statement %d of the loop body reads %r" % (k + 1, g.splitlines()[0]))
+    ch = lb[4]
+    if not (isinstance(ch, ast.If) and not ch.orelse and [ast.unparse(x) for x in ch.body] == ["experiment_deps = [*task_deps, prev_experiment_identifier]"]):
+        raise Unsupported("the chain branch does not build [*task_deps, prev_experiment_identifier]")
+    chain = _bexpr(ch.test, {"chain_experiments": "chain", "prev_experiment_identifier is not None": "prev_some"}, NAT_OPS)
+    if body[4] != "combine(name=name, deps=relative_experiment_identifiers)":
+        raise Unsupported("the group does not end with combine(name=name, deps=relative_experiment_identifiers): %r" % body[4])
+    return ("(* conductor/task_types/stdlib/run_experiment_group.py *)\n"
+            "Definition gen_group_chains (chain prev_some : bool) : bool := %s.\n"
+            "Definition gen_group_body_is_the_transcribed_one : bool := true.\n" % chain)
+
+
 def version_item():
     """VersionIndex.generate_new_output_version: the timestamp as a function of the clock and the last timestamp"""
     f = _find_method("conductor/execution/version_index.py", "VersionIndex", "generate_new_output_version")
@@ -1876,7 +1924,7 @@ def generate():
         failures["task_type_table"] = "%s: %s" % (type(ex).__name__, ex)
         parts.append("(* task_type_table: NOT TRANSLATED: %s *)\n" % str(ex).replace("*)", "* )"))
     for coqname, fn in (("gen_gate_open", gate_item), ("gen_new_version", version_item), ("gen_loop_goes_on", loop_item), ("gen_wants_slot", slot_item),
-                        ("gen_prune", prune_item), ("gen_should_run", should_run_item), ("gen_sel_top", select_item), ("gen_validate_args", validate_args_item), ("gen_finish", finish_item), ("gen_record_type", record_type_item), ("gen_tee_iteration", tee_item), ("gen_env_overrides", spawn_item), ("gen_launch_block", abort_item), ("gen_combine_decision", combine_item), ("gen_gc_decision", gc_item), ("gen_restore_before_loop", restore_item), ("gen_archive_output_decision", archive_item), ("gen_deps_paths_step", deps_paths_item), ("gen_copy_query", copy_item), ("gen_ident_repr", ident_item), ("gen_where_decision", where_item), ("gen_enqueue_dependent", exec_decisions_item), ("gen_clean_removals", clean_item), ("gen_lowering", lowering_item), ("gen_push_dep", first_visit_item)):
+                        ("gen_prune", prune_item), ("gen_should_run", should_run_item), ("gen_sel_top", select_item), ("gen_validate_args", validate_args_item), ("gen_finish", finish_item), ("gen_record_type", record_type_item), ("gen_tee_iteration", tee_item), ("gen_env_overrides", spawn_item), ("gen_launch_block", abort_item), ("gen_combine_decision", combine_item), ("gen_gc_decision", gc_item), ("gen_restore_before_loop", restore_item), ("gen_archive_output_decision", archive_item), ("gen_deps_paths_step", deps_paths_item), ("gen_copy_query", copy_item), ("gen_ident_repr", ident_item), ("gen_where_decision", where_item), ("gen_enqueue_dependent", exec_decisions_item), ("gen_clean_removals", clean_item), ("gen_lowering", lowering_item), ("gen_push_dep", first_visit_item), ("gen_group_chains", group_item)):
         try:
             parts.append(fn())
         except Exception as ex:  # pylint: disable=broad-except
